@@ -95,18 +95,19 @@ fn world_from(m: ReversePurgeItemHashMap<u64>) -> World {
 
 fn check_all(w: &World) {
     let s = &w.s;
-    let mut x = 0;
-    while x < D {
-        let k = x as u64;
-        let lb = s.lower_bound(&k);
-        let ub = s.upper_bound(&k);
-        assert!(lb <= w.t[x], "lower_bound exceeds the true count");
-        assert!(w.t[x] <= ub, "upper_bound is below the true count");
-        assert!(ub - lb <= s.maximum_error(), "ub - lb exceeds maximum_error");
-        let e = s.estimate(&k);
-        assert!(e == 0 || (lb <= e && e <= ub));
-        x += 1;
-    }
+    // the public bounds are checked for an arbitrary key of the domain (one symbolic key instead of a loop
+    // over all keys: each accessor probes the table, and eight probes per accessor exhaust memory)
+    let k: u64 = kani::any();
+    kani::assume((k as usize) < D);
+    let x = k as usize;
+    let lb = s.lower_bound(&k);
+    let ub = s.upper_bound(&k);
+    assert!(lb == vm::model_get(&s.hash_map, k), "lower_bound is not the key's counter");
+    assert!(lb <= w.t[x], "lower_bound exceeds the true count");
+    assert!(w.t[x] <= ub, "upper_bound is below the true count");
+    assert!(ub - lb <= s.maximum_error(), "ub - lb exceeds maximum_error");
+    let e = s.estimate(&k);
+    assert!(e == 0 || (lb <= e && e <= ub));
     assert!(s.num_active_items() <= s.maximum_map_capacity(), "more active items than the maximum map capacity");
     assert!(3 * s.maximum_error() <= s.total_weight(), "maximum_error exceeds total_weight/3 (< epsilon*N)");
 }
@@ -128,6 +129,23 @@ fn update_case(layout: [u16; 8]) {
     kani::cover!(w.s.offset > off0 || layout[3] == 0 && layout[0] == 0); // the purging step is inside (6-key layouts)
     kani::cover!(w.s.offset == off0);
     core::mem::forget(w);
+}
+
+/// cut: with at most 4 keys after the step the sketch cannot purge; reaching purge fails the harness
+fn cut_purge<T: Eq + Hash>(_m: &mut ReversePurgeItemHashMap<T>, _sample: usize) -> u64 {
+    panic!("verif cut: purge reached although the map is far from its capacity");
+}
+
+macro_rules! update_layout_nopurge {
+    ($name:ident, $layout:expr) => {
+        #[kani::proof]
+        #[kani::unwind(10)]
+        #[kani::stub(crate::frequencies::reverse_purge_item_hash_map::hash_item, verif_hash_item)]
+        #[kani::stub(ReversePurgeItemHashMap::purge, cut_purge)]
+        fn $name() {
+            update_case($layout);
+        }
+    };
 }
 
 macro_rules! update_layout {
@@ -159,10 +177,10 @@ macro_rules! update_layout {
 //@ assumes: sketch invariant (probing invariant; lb(x) <= t(x) <= lb(x)+offset for every key; stream_weight = sum of true counts; 3*offset + sum(counters) <= stream_weight; num_active <= 6) - inductive: this harness re-establishes it, new() satisfies it
 //@ replay_stub: frequencies/reverse_purge_item_hash_map.rs | fn hash_item<T: Hash>(item: &T) -> u64 { | return self::verif_kani_frequencies_map::verif_hash_item(item);
 //@ desc: one update_with_count(y, w) (including the step that purges): the bracket holds afterwards for every key of the domain against t + w[x=y], total_weight exact, ub-lb <= maximum_error <= N/3, num_active <= capacity, invariant re-established, no panic
-update_layout!(c07_update_step_6_flat, vm::LAYOUT_6_FLAT); //@ tier: quick
+update_layout!(c07_update_step_6_flat, vm::LAYOUT_6_FLAT);
 update_layout!(c07_update_step_6_clusters, vm::LAYOUT_6_CLUSTERS);
 update_layout!(c07_update_step_6_wrap, vm::LAYOUT_6_WRAP);
-update_layout!(c07_update_step_3, vm::LAYOUT_3); //@ tier: quick
+update_layout_nopurge!(c07_update_step_3, vm::LAYOUT_3);
 //@ endfamily: x
 
 //@ props: C07
@@ -206,6 +224,18 @@ fn merge_case(la: [u16; 8], lb: [u16; 8]) {
     core::mem::forget((a, b));
 }
 
+macro_rules! merge_layout_nopurge {
+    ($name:ident, $la:expr, $lb:expr) => {
+        #[kani::proof]
+        #[kani::unwind(10)]
+        #[kani::stub(crate::frequencies::reverse_purge_item_hash_map::hash_item, verif_hash_item)]
+        #[kani::stub(ReversePurgeItemHashMap::purge, cut_purge)]
+        fn $name() {
+            merge_case($la, $lb);
+        }
+    };
+}
+
 macro_rules! merge_layout {
     ($name:ident, $la:expr, $lb:expr) => {
         #[kani::proof]
@@ -231,8 +261,8 @@ macro_rules! merge_layout {
 //@ assumes: both operands satisfy the sketch invariant with their own ghost true counts (same hash function)
 //@ replay_stub: frequencies/reverse_purge_item_hash_map.rs | fn hash_item<T: Hash>(item: &T) -> u64 { | return self::verif_kani_frequencies_map::verif_hash_item(item);
 //@ desc: merge(other): for every key lb <= t_self + t_other <= ub, total_weight = sum of both, ub-lb <= maximum_error <= N/3, capacity respected, other unchanged
-merge_layout!(c07_merge_step_3_purged, vm::LAYOUT_3, vm::LAYOUT_0); //@ tier: quick
-merge_layout!(c07_merge_step_3_one, vm::LAYOUT_3, vm::LAYOUT_1); //@ tier: quick
+merge_layout_nopurge!(c07_merge_step_3_purged, vm::LAYOUT_3, vm::LAYOUT_0);
+merge_layout_nopurge!(c07_merge_step_3_one, vm::LAYOUT_3, vm::LAYOUT_1);
 merge_layout!(c07_merge_step_6_one, vm::LAYOUT_6_CLUSTERS, vm::LAYOUT_1);
 //@ endfamily: x
 
@@ -417,4 +447,303 @@ fn c07_capacity_and_epsilon_arithmetic() {
     assert!(eps == 3.5 / (m as f64));
     assert!(8.0 / 3.0 < EPSILON_FACTOR);
     kani::cover!(lg == 10);
+}
+
+// ---------------------------------------------------------------------------------------------
+// Sketch-level logic over the ABSTRACT map (compositional): the map operations are replaced by their
+// contracts (frequencies_map.rs, established for the real code by c07_map_adjust_step / c07_map_purge_*),
+// so that every sketch state - all 2^8 occupancy patterns, all counters - is covered at once.
+// ---------------------------------------------------------------------------------------------
+use crate::frequencies::reverse_purge_item_hash_map::verif_kani_frequencies_map::{
+    abs_adjust_or_put_value, abs_get, abs_num_active, abs_purge,
+};
+
+fn abs_counters() -> [u64; D] {
+    unsafe { vm::ABS }
+}
+
+/// arbitrary abstract sketch of max map size 8 + ghost true counts satisfying the sketch invariant
+/// magnitude bound of counters / offset / weights in the abstract harnesses. The arithmetic of the sketch
+/// logic is overflow-free 64-bit addition and saturating subtraction, uniform in magnitude; with 2^60 the
+/// SAT queries (sums of 8 counters under a counting constraint) did not finish in 10 min.
+const ABS_BOUND: u64 = 1 << 16;
+
+fn any_abs_world() -> (FrequentItemsSketch<u64>, [u64; D]) {
+    any_abs_world_opt(false)
+}
+
+fn any_abs_world_opt(with_amortisation: bool) -> (FrequentItemsSketch<u64>, [u64; D]) {
+    let mut t = [0u64; D];
+    let mut total = 0u64;
+    let mut sum = 0u64;
+    let mut active = 0;
+    let offset: u64 = kani::any();
+    kani::assume(offset < ABS_BOUND);
+    let mut x = 0;
+    while x < D {
+        let c: u64 = kani::any();
+        kani::assume(c < ABS_BOUND);
+        unsafe {
+            vm::ABS[x] = c;
+        }
+        if c > 0 {
+            active += 1;
+        }
+        t[x] = kani::any();
+        kani::assume(t[x] < 2 * ABS_BOUND);
+        kani::assume(c <= t[x] && t[x] <= c + offset);
+        total += t[x];
+        sum += c;
+        x += 1;
+    }
+    kani::assume(active <= 6);
+    if with_amortisation {
+        kani::assume(3 * offset + sum <= total);
+    }
+    let s = FrequentItemsSketch {
+        lg_max_map_size: 3,
+        cur_map_cap: 6,
+        offset,
+        stream_weight: total,
+        sample_size: 6,
+        hash_map: vm::abs_map(),
+    };
+    (s, t)
+}
+
+fn check_abs_invariant(s: &FrequentItemsSketch<u64>, t: &[u64; D]) {
+    let a = abs_counters();
+    let mut total = 0u64;
+    let mut sum = 0u64;
+    let mut active = 0;
+    let mut x = 0;
+    while x < D {
+        let k = x as u64;
+        assert!(s.lower_bound(&k) == a[x], "lower_bound is not the key's counter");
+        assert!(s.upper_bound(&k) == a[x] + s.maximum_error(), "upper_bound is not counter + maximum_error");
+        assert!(a[x] <= t[x], "lower_bound exceeds the true count");
+        assert!(t[x] <= a[x] + s.maximum_error(), "upper_bound is below the true count");
+        let e = s.estimate(&k);
+        assert!(e == if a[x] > 0 { a[x] + s.maximum_error() } else { 0 }, "estimate is not counter + offset for tracked items / 0 otherwise");
+        total += t[x];
+        sum += a[x];
+        if a[x] > 0 {
+            active += 1;
+        }
+        x += 1;
+    }
+    assert!(s.total_weight() == total, "total_weight is not the exact stream weight");
+    assert!(s.num_active_items() == active && active <= s.maximum_map_capacity(), "more active items than the maximum map capacity");
+    let _ = sum;
+    assert!(s.is_empty() == (active == 0));
+}
+
+fn check_amortisation(s: &FrequentItemsSketch<u64>) {
+    let a = abs_counters();
+    let mut sum = 0u64;
+    let mut x = 0;
+    while x < D {
+        sum += a[x];
+        x += 1;
+    }
+    assert!(3 * s.maximum_error() + sum <= s.total_weight(), "amortisation invariant broken: maximum_error may exceed N/3 (> epsilon*N)");
+}
+
+//@ props: C07 C17 C18
+//@ tier: quick
+//@ timeout: 900
+//@ functions: frequencies::FrequentItemsSketch::update_with_count
+//@ functions: frequencies::FrequentItemsSketch::update
+//@ functions: frequencies::FrequentItemsSketch::maybe_resize_or_purge
+//@ functions: frequencies::FrequentItemsSketch::lower_bound
+//@ functions: frequencies::FrequentItemsSketch::upper_bound
+//@ functions: frequencies::FrequentItemsSketch::estimate
+//@ functions: frequencies::FrequentItemsSketch::maximum_error
+//@ functions: frequencies::FrequentItemsSketch::total_weight
+//@ functions: frequencies::FrequentItemsSketch::num_active_items
+//@ functions: frequencies::FrequentItemsSketch::is_empty
+//@ stubs: ReversePurgeItemHashMap::{adjust_or_put_value, get, num_active, purge} -> their contracts over an abstract counter array (the contracts are what c07_map_adjust_step / c07_map_purge_* establish for the real map code)
+//@ bounds: max map size 8 (capacity 6, sample size 6): EVERY abstract state - any set of <= 6 tracked keys out of a domain of 8, any counters, offset and weights < 2^16 (ghost true counts < 2^17) - and any update (key, weight), including the updates that purge
+//@ assumes: sketch invariant over the abstract map: counter(x) <= t(x) <= counter(x) + offset for every key, stream_weight = sum of true counts, 3*offset + sum(counters) <= stream_weight, <= 6 tracked keys - inductive (re-established here; new() satisfies it)
+//@ replay_stub: frequencies/reverse_purge_item_hash_map.rs | pub fn get(&self, key: &T) -> u64 { | return self::verif_kani_frequencies_map::abs_get(self, key);
+//@ replay_stub: frequencies/reverse_purge_item_hash_map.rs | pub fn adjust_or_put_value(&mut self, key: T, adjust_amount: u64) { | return self::verif_kani_frequencies_map::abs_adjust_or_put_value(self, key, adjust_amount);
+//@ replay_stub: frequencies/reverse_purge_item_hash_map.rs | pub fn purge(&mut self, sample_size: usize) -> u64 { | return self::verif_kani_frequencies_map::abs_purge(self, sample_size);
+//@ replay_stub: frequencies/reverse_purge_item_hash_map.rs | pub fn num_active(&self) -> usize { | return self::verif_kani_frequencies_map::abs_num_active(self);
+//@ desc: one update_with_count(y, w) from any valid sketch state: afterwards lower_bound(x) <= true(x) <= upper_bound(x) for every key, ub - lb = maximum_error, total_weight exact, tracked keys <= capacity, invariant re-established; a zero weight changes nothing (the error bound maximum_error <= N/3 is c07_sketch_amortisation_* )
+#[kani::proof]
+#[kani::unwind(10)]
+#[kani::stub(crate::frequencies::reverse_purge_item_hash_map::ReversePurgeItemHashMap::adjust_or_put_value, abs_adjust_or_put_value)]
+#[kani::stub(crate::frequencies::reverse_purge_item_hash_map::ReversePurgeItemHashMap::get, abs_get)]
+#[kani::stub(crate::frequencies::reverse_purge_item_hash_map::ReversePurgeItemHashMap::num_active, abs_num_active)]
+#[kani::stub(crate::frequencies::reverse_purge_item_hash_map::ReversePurgeItemHashMap::purge, abs_purge)]
+fn c07_sketch_update_all_states() {
+    let (mut s, mut t) = any_abs_world();
+    check_abs_invariant(&s, &t);
+    let y: u64 = kani::any();
+    kani::assume((y as usize) < D);
+    let w: u64 = kani::any();
+    kani::assume(w < ABS_BOUND);
+    let off0 = s.maximum_error();
+    let n0 = s.total_weight();
+    s.update_with_count(y, w);
+    t[y as usize] += w;
+    assert!(s.total_weight() == n0 + w);
+    assert!(s.maximum_error() >= off0, "maximum_error decreased");
+    check_abs_invariant(&s, &t);
+    kani::cover!(s.maximum_error() > off0); // a purging update
+    kani::cover!(s.maximum_error() > off0 && s.num_active_items() == 0); // all counters equal: the purge empties the map
+    kani::cover!(w == 0);
+    core::mem::forget(s);
+}
+
+/// `other` for merge: a REAL map in a concrete occupancy layout (merge only iterates it)
+fn other_world(layout: [u16; 8]) -> World {
+    world_with_layout(layout)
+}
+
+fn merge_abs_case(layout_other: [u16; 8]) {
+    vm::init_home();
+    let o = other_world(layout_other);
+    let (mut s, mut t) = any_abs_world();
+    let ns = s.total_weight();
+    let no = o.s.total_weight();
+    let off_s = s.maximum_error();
+    let off_o = o.s.maximum_error();
+    s.merge(&o.s);
+    let mut x = 0;
+    while x < D {
+        t[x] += o.t[x];
+        x += 1;
+    }
+    assert!(s.total_weight() == ns + no, "merged total_weight is not the sum of the operands");
+    assert!(s.maximum_error() >= off_s + off_o || no == 0, "the other sketch's error was not added");
+    check_abs_invariant(&s, &t);
+    assert!(o.s.total_weight() == no && o.s.maximum_error() == off_o, "merge modified its argument");
+    kani::cover!(no > 0 && off_o > 0);
+    kani::cover!(no == 0);
+    core::mem::forget((s, o));
+}
+
+macro_rules! merge_abs {
+    ($name:ident, $lo:expr) => {
+        #[kani::proof]
+        #[kani::unwind(10)]
+        #[kani::stub(crate::frequencies::reverse_purge_item_hash_map::hash_item, verif_hash_item)]
+        #[kani::stub(crate::frequencies::reverse_purge_item_hash_map::ReversePurgeItemHashMap::adjust_or_put_value, abs_adjust_or_put_value)]
+        #[kani::stub(crate::frequencies::reverse_purge_item_hash_map::ReversePurgeItemHashMap::get, abs_get)]
+        #[kani::stub(crate::frequencies::reverse_purge_item_hash_map::ReversePurgeItemHashMap::num_active, abs_num_active)]
+        #[kani::stub(crate::frequencies::reverse_purge_item_hash_map::ReversePurgeItemHashMap::purge, abs_purge)]
+        fn $name() {
+            merge_abs_case($lo);
+        }
+    };
+}
+
+//@ family: merge_abs
+//@ props: C07 C17 C18
+//@ tier: thorough
+//@ timeout: 1800
+//@ functions: frequencies::FrequentItemsSketch::merge
+//@ functions: frequencies::FrequentItemsSketch::update_with_count
+//@ functions: frequencies::ReversePurgeItemIter::next
+//@ functions: frequencies::ReversePurgeItemHashMap::iter
+//@ unwind: 10
+//@ stubs: map operations of the receiver -> contracts over the abstract counter array; hash_item -> symbolic home table (for the real map of the argument)
+//@ bounds: receiver: EVERY abstract state of a size-8 sketch (as c07_sketch_update_all_states); argument: a real size-8 sketch in the occupancy layout of the instance - no tracked key (the state an all-equal purge leaves: stream_weight > 0, offset > 0, or a truly empty sketch), 1 key, or 3 keys - with symbolic keys, counters, offset and ghost true counts
+//@ assumes: both operands satisfy the sketch invariant with their own ghost true counts
+//@ replay_stub: frequencies/reverse_purge_item_hash_map.rs | pub fn get(&self, key: &T) -> u64 { | return self::verif_kani_frequencies_map::abs_get(self, key);
+//@ replay_stub: frequencies/reverse_purge_item_hash_map.rs | pub fn adjust_or_put_value(&mut self, key: T, adjust_amount: u64) { | return self::verif_kani_frequencies_map::abs_adjust_or_put_value(self, key, adjust_amount);
+//@ replay_stub: frequencies/reverse_purge_item_hash_map.rs | pub fn purge(&mut self, sample_size: usize) -> u64 { | return self::verif_kani_frequencies_map::abs_purge(self, sample_size);
+//@ replay_stub: frequencies/reverse_purge_item_hash_map.rs | pub fn num_active(&self) -> usize { | return self::verif_kani_frequencies_map::abs_num_active(self);
+//@ replay_stub: frequencies/reverse_purge_item_hash_map.rs | fn hash_item<T: Hash>(item: &T) -> u64 { | return self::verif_kani_frequencies_map::verif_hash_item(item);
+//@ desc: merge(other): for every key lb <= t_self + t_other <= ub, total_weight = sum of both, the argument's error is added, maximum_error <= N/3, capacity respected, invariant re-established, argument unchanged - also when the argument tracks no key but carries weight
+merge_abs!(c07_sketch_merge_purged_other, vm::LAYOUT_0); //@ tier: quick
+merge_abs!(c07_sketch_merge_one_key, vm::LAYOUT_1); //@ tier: quick
+merge_abs!(c07_sketch_merge_three_keys, vm::LAYOUT_3);
+//@ endfamily: x
+
+fn cut_purge_abs<T: Eq + Hash>(_m: &mut ReversePurgeItemHashMap<T>, _sample: usize) -> u64 {
+    panic!("verif cut: purge reached in the no-purge amortisation harness");
+}
+
+//@ props: C07 C17
+//@ tier: quick
+//@ timeout: 900
+//@ functions: frequencies::FrequentItemsSketch::update_with_count
+//@ functions: frequencies::FrequentItemsSketch::maximum_error
+//@ stubs: map operations -> contracts over the abstract counter array; purge cut (this harness covers the updates that do not purge)
+//@ bounds: every abstract state with <= 5 tracked keys (so that the update cannot purge), counters / offset / weight < 2^16
+//@ assumes: 3*maximum_error + sum(counters) <= total_weight (the amortisation invariant; new() satisfies it)
+//@ replay_stub: frequencies/reverse_purge_item_hash_map.rs | pub fn get(&self, key: &T) -> u64 { | return self::verif_kani_frequencies_map::abs_get(self, key);
+//@ replay_stub: frequencies/reverse_purge_item_hash_map.rs | pub fn adjust_or_put_value(&mut self, key: T, adjust_amount: u64) { | return self::verif_kani_frequencies_map::abs_adjust_or_put_value(self, key, adjust_amount);
+//@ replay_stub: frequencies/reverse_purge_item_hash_map.rs | pub fn num_active(&self) -> usize { | return self::verif_kani_frequencies_map::abs_num_active(self);
+//@ desc: an update that does not purge preserves 3*maximum_error + sum(counters) <= total_weight, hence maximum_error <= total_weight/3 < epsilon*total_weight
+#[kani::proof]
+#[kani::unwind(10)]
+#[kani::stub(crate::frequencies::reverse_purge_item_hash_map::ReversePurgeItemHashMap::adjust_or_put_value, abs_adjust_or_put_value)]
+#[kani::stub(crate::frequencies::reverse_purge_item_hash_map::ReversePurgeItemHashMap::get, abs_get)]
+#[kani::stub(crate::frequencies::reverse_purge_item_hash_map::ReversePurgeItemHashMap::num_active, abs_num_active)]
+#[kani::stub(crate::frequencies::reverse_purge_item_hash_map::ReversePurgeItemHashMap::purge, cut_purge_abs)]
+fn c07_sketch_amortisation_update() {
+    let (mut s, _t) = any_abs_world_opt(true);
+    kani::assume(s.num_active_items() <= 5);
+    let y: u64 = kani::any();
+    kani::assume((y as usize) < D);
+    let w: u64 = kani::any();
+    kani::assume(w < ABS_BOUND);
+    s.update_with_count(y, w);
+    check_amortisation(&s);
+    kani::cover!(w > 0);
+    core::mem::forget(s);
+}
+
+//@ props: C07 C17
+//@ tier: quick
+//@ timeout: 900
+//@ functions: frequencies::FrequentItemsSketch::maybe_resize_or_purge
+//@ stubs: map operations -> contracts over the abstract counter array
+//@ bounds: the abstract state right before a purge: 7 tracked keys, counters sorted ascending (without loss of generality: the statement only involves the multiset of counters), counters / offset < 2^16
+//@ assumes: 3*maximum_error + sum(counters) <= total_weight before the purge
+//@ replay_stub: frequencies/reverse_purge_item_hash_map.rs | pub fn purge(&mut self, sample_size: usize) -> u64 { | return self::verif_kani_frequencies_map::abs_purge(self, sample_size);
+//@ replay_stub: frequencies/reverse_purge_item_hash_map.rs | pub fn num_active(&self) -> usize { | return self::verif_kani_frequencies_map::abs_num_active(self);
+//@ desc: the purge step of maybe_resize_or_purge (offset += median returned by a purge whose contract guarantees >= 3 counters >= median) preserves 3*maximum_error + sum(counters) <= total_weight and leaves <= 6 tracked keys, so it never reaches the "purge did not reduce" panic
+#[kani::proof]
+#[kani::unwind(10)]
+#[kani::stub(crate::frequencies::reverse_purge_item_hash_map::ReversePurgeItemHashMap::num_active, abs_num_active)]
+#[kani::stub(crate::frequencies::reverse_purge_item_hash_map::ReversePurgeItemHashMap::purge, abs_purge)]
+fn c07_sketch_amortisation_purge() {
+    let mut sum = 0u64;
+    let mut prev = 0u64;
+    let mut x = 0;
+    while x < D {
+        let c: u64 = kani::any();
+        kani::assume(c < ABS_BOUND && c >= prev);
+        // exactly 7 tracked keys: the smallest slot is empty
+        kani::assume((x == 0) == (c == 0));
+        prev = c;
+        unsafe {
+            vm::ABS[x] = c;
+        }
+        sum += c;
+        x += 1;
+    }
+    let offset: u64 = kani::any();
+    kani::assume(offset < ABS_BOUND);
+    let total: u64 = kani::any();
+    kani::assume(total < (1u64 << 24) && 3 * offset + sum <= total);
+    let mut s = FrequentItemsSketch {
+        lg_max_map_size: 3,
+        cur_map_cap: 6,
+        offset,
+        stream_weight: total,
+        sample_size: 6,
+        hash_map: vm::abs_map(),
+    };
+    s.maybe_resize_or_purge();
+    assert!(s.maximum_error() > offset, "the purge did not raise the error term");
+    check_amortisation(&s);
+    assert!(s.num_active_items() <= 6);
+    kani::cover!(s.num_active_items() == 0);
+    kani::cover!(s.num_active_items() == 3);
+    core::mem::forget(s);
 }
